@@ -206,6 +206,8 @@ PROPS['C19'] = dict(
 # function under lean/Vise/Gen/Fn, rewritten on every run) are proved EQUAL to the model's definitions in
 # lean/Vise/Tie/*.lean. The equations are obligations of the property whose theorems rest on these functions.
 TIE = {
+    'C14': (['Vise.Tie.Codec'], "vm.opSplit and vm.instructionSplit (the two decoding steps every instruction goes through)"),
+    'C15': (['Vise.Tie.Codec'], "vm.opSplit and vm.instructionSplit: errors exactly where the model has them and no reachable run-time panic (`none` of the regenerated definition)"),
     'C01': (['Vise.Tie.Render'], "render.Sizer.Check (the comparison every size theorem rests on) and render.Menu.reset"),
     'C02': (['Vise.Tie.StateNav', 'Vise.Tie.Render'], "state.State.Next / Previous / Sides / Top / Same (page index arithmetic and which lateral entries are on offer), render.Menu.reset (re-arming of the lateral entries) and render.Sizer.Check"),
     'C03': (['Vise.Tie.StateNav'], "state.State.Previous (IndexError on page 0, the 'no match' case of '<') and Next / Top / Same"),
